@@ -33,10 +33,24 @@ def _analyse_classes(root, classes, budget_s=600):
         for sc in scs:
             res['scenarios'] += 1
             sim.compilation.routines = dict(sc.routines)
+            sim.pass_blocks = getattr(sc, 'pass_blocks', None)
             acls, anode = sc.admit if sc.admit else (cls, sc.node)
             ok, by = sim.run_pass_handlers(acls, anode, sc.routine)
             if ok and sc.admit:
                 ok, by = sim.run_pass_handlers(cls, sc.node, sc.routine)
+            sim.pass_blocks = None
+            if getattr(sc, 'must_admit', False) and not ok:
+                _problem(res, 'valid-node-rejected', g, cls, sc,
+                         f'{by} rejects a statement that is valid where it '
+                         f'stands ({sc.label}: an enclosing loop of its '
+                         f'kind exists further out)', None)
+            if getattr(sc, 'must_reject', False):
+                if ok:
+                    _problem(res, 'invalid-node-accepted', g, cls, sc,
+                             f'no pass rejects the statement although no '
+                             f'enclosing loop of its kind exists '
+                             f'({sc.label})', None)
+                continue
             if not ok:
                 continue
             # children are checked by their own handlers
@@ -253,6 +267,13 @@ def _check_path(sim, res, g, cls, sc, debug, choices, out, is_expr):
                          debug)
     if cls == 'PrintStmt':
         _print_items(sim, res, g, cls, sc, debug, instrs)
+    if getattr(sc, 'expect_target', None):
+        jumps = [i[1] for i in G.strip_pseudo(instrs) if i[0] == 'jmp']
+        if jumps != [sc.expect_target]:
+            _problem(res, 'exit-target', g, cls, sc,
+                     f'inside nested loops the statement jumps to {jumps}; '
+                     f'it must leave the innermost enclosing loop of its '
+                     f'kind ({sc.expect_target})', debug)
     # marker discipline
     mp, manual = G.marker_check(instrs)
     for p in mp:
@@ -510,7 +531,8 @@ def _detail_head(detail, kind=None):
     if kind in ('net-effect', 'marker-discipline', 'marker-attribution',
                 'marker-without-flag', 'flag-changes-code',
                 'inconsistent-stack', 'arg-type', 'print-items',
-                'prompt-dependent-code'):
+                'prompt-dependent-code', 'exit-target',
+                'valid-node-rejected', 'invalid-node-accepted'):
         return kind
     if kind == 'generator-raises':
         return d.split(':')[0].strip()[:40]
